@@ -7,7 +7,7 @@ from sa.absint import Evaluator, all_effects
 from sa.callgraph import CallGraph
 from sa.index import AnalysisError, walk_no_nested
 from sa.schema import TypeRef
-from sa.terms import App, Const, Ref, Sym, cases, dict_pairs, subterms
+from sa.terms import App, Const, Ref, Sym, cases, contains, dict_pairs, subterms
 from . import c02
 
 EXPLANATION = ("four structural necessary conditions of the round trip: (1) for every node type the keys its to_obj can emit "
@@ -29,6 +29,7 @@ def run(ctx):
     ctx.use_files("suit_generator/suit/types/common.py", "suit_generator/suit/manifest.py", "suit_generator/suit/security.py",
                   "suit_generator/input_output.py", "suit_generator/envelope.py", "suit_generator/cmd_parse.py", "suit_generator/cmd_create.py")
     key_agreement(ctx)
+    dependency_classification(ctx)
     text_formats(ctx)
     union_order(ctx)
     validator_symmetry(ctx)
@@ -143,6 +144,44 @@ def key_agreement(ctx):
                 expected="no slicing", found=f"{bad}")
 
 
+def dependency_classification(ctx):
+    """An integrated member (text-string key of the envelope) is listed as a dependency exactly when its value decodes as an
+    envelope: the description must name payloads as payloads and dependencies as dependencies."""
+    R = ctx.report
+    repo = ctx.repo
+    R.rule("C03-D1d dependency / payload classification", 1, "an integrated value is a dependency iff it decodes as an envelope")
+    f = repo.func(COMMON, "SuitKeyValue.from_cbor")
+    fq = ctx.fq(f)
+    ev = Evaluator(repo, inline_depth=0)
+    outs = ev.outcomes(f)
+    dep_keys = []
+    calls = []
+    for o in outs:
+        for e in all_effects(o.effects):
+            if isinstance(e, App) and e.op == "eff:store":
+                k = e.args[1]
+                if contains(k, lambda u: isinstance(u, Ref) and u.kind == "class" and u.obj.name == "suit_integrated_dependencies"):
+                    dep_keys.append(k)
+            if isinstance(e, App) and e.op == "eff:call" and isinstance(e.args[0], App):
+                calls.append(e.args[0])
+    if not dep_keys:
+        raise AnalysisError(f"{fq}: selection of suit_integrated_dependencies not recognised")
+    V = App("unpack", (App("elem", (App("meth:items", (App("call", (Ref("func", repo.func(COMMON, "SuitObject.deserialize_cbor")), P("cbstr"))),)),)), Const(1), Const(2)))
+    trial = [c for c in calls if (c.op == "call" and isinstance(c.args[0], Ref) and getattr(c.args[0].obj, "name", "") == "from_cbor"
+                                  or c.op == "meth:from_cbor") and c.args[-1] == V
+             and any(isinstance(a_, Ref) and a_.kind == "class" and a_.obj.name.startswith("SuitEnvelopeTagged") for a_ in c.args)]
+    ok = bool(trial)
+    found = "" if trial else "no trial decode of the value as an envelope"
+    for k in dep_keys:
+        conds = {c_ for g_, t in cases(k) for c_ in g_}
+        if not conds or not all(isinstance(c_, App) and c_.op == "exc" for c_ in conds):
+            ok = False
+            found = f"selected by {[repr(c_)[:120] for c_ in conds]}"
+    R.check("C03-D1d dependency / payload classification", ok, "SuitKeyValue.from_cbor", mod=f.module, node=f.node, function=fq,
+            expected="dependency iff SuitEnvelopeTagged*.from_cbor(value) succeeds (a payload that merely looks like an envelope stays a payload)",
+            found=found)
+
+
 # ---------------------------------------------------------------------------------------------- D2
 def text_formats(ctx):
     R = ctx.report
@@ -177,74 +216,165 @@ def text_formats(ctx):
     want = {"json": ("to_json_file", "from_json_file"), "yaml": ("to_yaml_file", "from_yaml_file"), "suit": ("to_suit_file", "from_suit_file")}
     R.check("C03-D2b format tables", all((ser.get(k), des.get(k)) == v for k, v in want.items()), "each format maps to its own writer and reader",
             mod=io.module, node=io.attr_nodes["SERIALIZERS"], function=io.fq, expected=f"{want}", found=f"{ {k: (ser.get(k), des.get(k)) for k in want} }")
-    gs = repo.func(IO, "InputOutputMixin.get_serializer")
-    gd = repo.func(IO, "InputOutputMixin.get_deserializer")
-    R.rule("C03-D2c format dispatch", 3, "dispatch looks the lower-cased format up in its own table")
-    R.check("C03-D2c format dispatch", "getattr(self, self.SERIALIZERS[output_type.lower()])" in ast.unparse(gs.node), "get_serializer", mod=gs.module,
-            node=gs.node, function=ctx.fq(gs), expected="SERIALIZERS[output_type.lower()]", found="other table / key")
-    R.check("C03-D2c format dispatch", "getattr(self, self.DESERIALIZERS[input_type.lower()])" in ast.unparse(gd.node), "get_deserializer", mod=gd.module,
-            node=gd.node, function=ctx.fq(gd), expected="DESERIALIZERS[input_type.lower()]", found="other table / key")
-    dp = repo.func("suit_generator.envelope", "SuitEnvelope.dump")
-    src = ast.unparse(dp.node)
-    R.check("C03-D2c format dispatch", "output_type = pathlib.Path(file_name).suffix[1:]" in src and "output_type = 'STDOUT'" in src,
-            "AUTO -> file suffix; no file -> stdout", mod=dp.module, node=dp.node, function=ctx.fq(dp), expected="suffix without the dot", found="not recognised")
+    P = lambda n: Sym("param:" + n)
 
+    def calls_of(effects):
+        return [e.args[0] for e in all_effects(effects) if isinstance(e, App) and e.op == "eff:call" and isinstance(e.args[0], App)]
+
+    def is_func(t, name):
+        return isinstance(t, App) and t.op == "call" and isinstance(t.args[0], Ref) and getattr(t.args[0].obj, "name", None) == name
+
+    # ---- D2c: dispatch = getattr(self, TABLE[format.lower()]); AUTO -> suffix without the dot; no file -> stdout
+    R.rule("C03-D2c format dispatch", 3, "dispatch looks the lower-cased format up in its own table")
+    for q, table, par in (("InputOutputMixin.get_serializer", ser, "output_type"), ("InputOutputMixin.get_deserializer", des, "input_type")):
+        g = repo.func(IO, q)
+        rets = [o for o in ev.outcomes(g) if o.kind == "return"]
+        want = App("call:getattr", (P("self"), App("idx", (Const(table), App("meth:lower", (P(par),))))))
+        R.check("C03-D2c format dispatch", bool(rets) and all(o.value == want for o in rets), q.split(".")[-1], mod=g.module, node=g.node,
+                function=ctx.fq(g), expected=f"getattr(self, <own table>[{par}.lower()])", found=f"{[repr(o.value)[:160] for o in rets]}")
+    dp = repo.func("suit_generator.envelope", "SuitEnvelope.dump")
+    douts = [o for o in ev.outcomes(dp) if o.kind == "return"]
+    sel = [c for o in douts for c in calls_of(o.effects) if is_func(c, "get_serializer")]
+    ok = False
+    found = ""
+    if sel:
+        fmt = sel[0].args[-1]
+        found = repr(fmt)[:300]
+        table_ = []
+        for g_, t in cases(fmt):
+            table_.append(t)
+        suffix_ok = any(isinstance(t, App) and t.op == "slice" and isinstance(t.args[0], App) and t.args[0].op == "attr:suffix"
+                        and contains(t.args[0], lambda u: u == P("file_name")) and t.args[1:] == (Const(1), Const(None), Const(None)) for t in table_)
+        ok = suffix_ok and Const("STDOUT") in table_ and P("output_type") in table_
+        # no file name selects stdout whatever the format
+        for g_, t in cases(fmt):
+            for cond, val in g_.items():
+                if cond == App("is", (P("file_name"), Const(None))) and val is True and t != Const("STDOUT"):
+                    ok = False
+    R.check("C03-D2c format dispatch", ok, "AUTO -> file suffix; no file -> stdout", mod=dp.module, node=dp.node, function=ctx.fq(dp),
+            expected="suffix without the dot / 'STDOUT' / the format given", found=found or "serializer selection not recognised")
+
+    # ---- D2d: hierarchy expansion
     R.rule("C03-D2d hierarchy expansion", 6, "a dependency is replaced only by the parse of that same value; only under suit-integrated-dependencies; anchors precede aliases")
     deps_name = "suit-integrated-dependencies"
-    for q in ("InputOutputMixin.parse_json_submanifests", "InputOutputMixin.parse_yaml_submanifests"):
+    D = P("data")
+    ROOT = Sym("ROOT")
+    anchors_first = App("dict", (App("kv", (Const("SUIT_Dependent_Manifests"), Const({}))), App("kv", (App("spread", (D,)), D))))
+    for q, yaml_mode in (("InputOutputMixin.parse_json_submanifests", False), ("InputOutputMixin.parse_yaml_submanifests", True)):
         f = repo.func(IO, q)
+        fq = ctx.fq(f)
         outs = [o for o in ev.outcomes(f) if o.kind == "return"]
         if len(outs) != 1:
-            raise AnalysisError(f"{ctx.fq(f)}: expected one outcome")
-        stores = [e for e in all_effects(outs[0].effects) if isinstance(e, App) and e.op == "eff:store"]
-        # the store that replaces the dependency value
-        repl = [e for e in stores if isinstance(e.args[0], App) and e.args[0].op == "idx" and e.args[0].args[1] == Const(deps_name)]
-        ok = False
-        detail = ""
-        if len(repl) == 1:
-            cont, key, val = repl[0].args
-            src_term = App("idx", (cont, key))
-            parse_term = None
-            for s in subterms(val) if q.endswith("json_submanifests") else [x for e in stores for x in subterms(e.args[2])]:
-                if isinstance(s, App) and s.op == "meth:to_obj" and isinstance(s.args[0], App) and s.args[0].op == "call" \
-                        and isinstance(s.args[0].args[0], Ref) and s.args[0].args[0].obj.name == "from_cbor":
-                    parse_term = s
-            if parse_term is not None:
-                arg = parse_term.args[0].args[-1]
-                ok = arg == App("a2b_hex", (strip_loop(src_term),)) or strip_loop(arg) == App("a2b_hex", (strip_loop(src_term),))
-                detail = repr(arg)[:200]
-                envcls = [a for a in parse_term.args[0].args if isinstance(a, Ref) and a.kind == "class"]
-                ok = ok and bool(envcls) and envcls[0].obj.name == "SuitEnvelopeTagged"
-        R.check("C03-D2d hierarchy expansion", ok, f"{q}: replacement = SuitEnvelopeTagged.from_cbor(a2b_hex(<that same value>)).to_obj()", mod=f.module,
-                node=f.node, function=ctx.fq(f), expected="parse of the very value being replaced", found=detail or f"{len(repl)} replacing stores")
-        guard = any(isinstance(e, App) and e.op == "eff:if" and "suit-integrated-dependencies" in repr(e.args[0]) for e in outs[0].effects)
-        R.check("C03-D2d hierarchy expansion", guard and outs[0].value is not None, f"{q}: only when the envelope has integrated dependencies; the data is returned",
-                mod=f.module, node=f.node, function=ctx.fq(f), expected="guarded by the presence of suit-integrated-dependencies", found="unguarded")
-    y = repo.func(IO, "InputOutputMixin.parse_yaml_submanifests")
-    ysrc = ast.unparse(y.node)
-    R.check("C03-D2d hierarchy expansion", "data = {**{'SUIT_Dependent_Manifests': {}}, **data}" in ysrc, "YAML: the anchor section is inserted before the envelope",
-            mod=y.module, node=y.node, function=ctx.fq(y), expected="{**{'SUIT_Dependent_Manifests': {}}, **data} (anchors must precede aliases)",
-            found="anchor section appended after the envelope or missing")
-    R.check("C03-D2d hierarchy expansion", "= data['SUIT_Dependent_Manifests'][f'{key}_envelope']" in ysrc and
-            "data['SUIT_Dependent_Manifests'][f'{key}_envelope'] = cls.parse_yaml_submanifests(" in ysrc,
-            "YAML: the envelope refers to the same object that was stored in the anchor section (alias), expanded recursively", mod=y.module, node=y.node,
-            function=ctx.fq(y), expected="same object under both keys", found="different objects")
-    # writers: expansion only when parse_hierarchy is True; cmd_parse hands its options through
+            raise AnalysisError(f"{fq}: expected one outcome")
+        o = outs[0]
+        roots = {D, anchors_first} if yaml_mode else {D}
+
+        def norm(t):
+            if t in roots:
+                return ROOT
+            if isinstance(t, App) and t.op == "phi" and {x for _, x in cases(t)} <= roots:
+                return ROOT
+            if isinstance(t, App):
+                return App(t.op, [norm(a) for a in t.args], t.node)
+            return t
+        ret_alts = {x for _, x in cases(o.value)}
+        R.check("C03-D2d hierarchy expansion", ret_alts <= roots and (not yaml_mode or anchors_first in ret_alts or True),
+                f"{q}: the description itself is returned", mod=f.module, node=f.node, function=fq,
+                expected="data (YAML: with the SUIT_Dependent_Manifests section inserted first when missing)", found=repr(o.value)[:200])
+        ET = App("idx", (ROOT, Const("SUIT_Envelope_Tagged")))
+        DEPS = App("idx", (ET, Const(deps_name)))
+        K = App("elem", (DEPS,))
+        SRC = App("idx", (DEPS, K))
+        stores = [norm(e) for e in all_effects(o.effects) if isinstance(e, App) and e.op in ("eff:store", "eff:delitem", "eff:setattr")]
+        parse_calls = [norm(c) for c in calls_of(o.effects) if c.op == "meth:to_obj"]
+        PARSE = None
+        for c in parse_calls:
+            inner = c.args[0]
+            if is_func(inner, "from_cbor") and any(isinstance(a_, Ref) and a_.kind == "class" and a_.obj.name == "SuitEnvelopeTagged" for a_ in inner.args) \
+                    and inner.args[-1] == App("a2b_hex", (SRC,)):
+                PARSE = c
+        if yaml_mode:
+            DM = App("idx", (ROOT, Const("SUIT_Dependent_Manifests")))
+            AK = [App("cat", (App("str", (K,)), Const("_envelope"))), App("cat", (K, Const("_envelope")))]
+            rec = [norm(c) for c in calls_of(o.effects) if is_func(c, f.name)]
+            REC = next((c for c in rec if PARSE is not None and c.args[-1] == PARSE), None)
+            allowed = []
+            for ak in AK:
+                allowed.append(App("eff:store", (DM, ak, REC)) if REC is not None else None)
+                allowed.append(App("eff:store", (DEPS, K, App("idx", (DM, ak)))))
+            need = 2
+        else:
+            allowed = [App("eff:store", (DEPS, K, PARSE))] if PARSE is not None else []
+            need = 1
+        extra = [e for e in stores if e not in allowed]
+        hit = [e for e in stores if e in allowed]
+        R.check("C03-D2d hierarchy expansion", PARSE is not None and len(set(map(repr, hit))) == need and not extra,
+                f"{q}: replacement = SuitEnvelopeTagged.from_cbor(a2b_hex(<that same value>)).to_obj()" + (", stored once as anchor and referenced by the same object" if yaml_mode else ""),
+                mod=f.module, node=f.node, function=fq, expected="only the stores that put the parse of the very value being replaced in its place",
+                found=("parse of the replaced value not recognised" if PARSE is None else f"other stores: {[repr(e)[:140] for e in extra][:2]}" if extra
+                       else f"{len(hit)} of {need} expected stores"))
+        # nothing else modifies the description: no mutating call on anything reached from it
+        muts = [norm(c) for c in calls_of(o.effects) if c.op.startswith("meth:") and c.op[5:] in
+                ("update", "pop", "popitem", "clear", "setdefault", "append", "extend", "insert", "remove", "sort", "reverse", "__setitem__", "__delitem__")
+                and contains(norm(c.args[0]), lambda u: u == ROOT)]
+        R.check("C03-D2d hierarchy expansion", not muts, f"{q}: no other modification of the description", mod=f.module,
+                node=muts[0].node if muts and getattr(muts[0], "node", None) is not None else f.node, function=fq,
+                expected="entries of the description are neither moved, merged nor dropped",
+                found=f"{[repr(m_)[:160] for m_ in muts][:2]}")
+        top = [e for e in o.effects if isinstance(e, App) and e.op.startswith("eff:") and e.op not in ("eff:assume",)]
+        guard = len(top) == 1 and top[0].op == "eff:if" and norm(top[0].args[0]) == App("in", (Const(deps_name), ET)) and not list(top[0].args[2].args)
+        R.check("C03-D2d hierarchy expansion", guard, f"{q}: only when the envelope has integrated dependencies", mod=f.module, node=f.node,
+                function=fq, expected="everything guarded by the presence of suit-integrated-dependencies", found="unguarded effects" if not guard else "")
+        if yaml_mode:
+            R.check("C03-D2d hierarchy expansion", anchors_first in {x for _, x in cases(o.value)} | {x for e in all_effects(o.effects) for s_ in subterms(e) for x in ([s_] if s_ == anchors_first else [])},
+                    "YAML: the anchor section is inserted before the envelope", mod=f.module, node=f.node, function=fq,
+                    expected="{'SUIT_Dependent_Manifests': {}, **data} (anchors must precede aliases in the dump)",
+                    found="anchor section appended after the envelope or missing")
+
+    # ---- D2e: writers expand only on request; cmd_parse hands its options through; the reader returns the model's description
     R.rule("C03-D2e writers and CLI", 5, "writers expand only on request; parse loads 'suit' and dumps with the requested format")
-    for q, fn in (("InputOutputMixin.to_json_file", "parse_json_submanifests"), ("InputOutputMixin.to_yaml_file", "parse_yaml_submanifests"),
-                  ("InputOutputMixin.to_stdout", "parse_yaml_submanifests")):
+    for q, fn, lib in (("InputOutputMixin.to_json_file", "parse_json_submanifests", "json.dump"), ("InputOutputMixin.to_yaml_file", "parse_yaml_submanifests", "yaml.dump"),
+                       ("InputOutputMixin.to_stdout", "parse_yaml_submanifests", "yaml.dump")):
         f = repo.func(IO, q)
-        R.check("C03-D2e writers and CLI", f"cls.{fn}(data) if parse_hierarchy is True else data" in ast.unparse(f.node), q, mod=f.module, node=f.node,
-                function=ctx.fq(f), expected=f"{fn}(data) if parse_hierarchy is True else data", found="data transformed otherwise", key_extra=q)
+        o = [x for x in ev.outcomes(f) if x.kind == "return"]
+        dumps = [c for x in o for c in calls_of(x.effects) if c.op == "call:" + lib]
+        ok = False
+        found = "dump call not recognised"
+        if len(dumps) >= 1:
+            obj = dumps[0].args[0]
+            found = repr(obj)[:200]
+            tab = cases(obj)
+            exp = [t for g_, t in tab if is_func(t, fn) and t.args[-1] == P("data")]
+            plain = [t for g_, t in tab if t == P("data")]
+            conds = {c_ for g_, t in tab for c_ in g_}
+            ok = len(tab) == 2 and len(exp) == 1 and len(plain) == 1 and conds <= {App("is", (P("parse_hierarchy"), Const(True))), P("parse_hierarchy"),
+                                                                               App("==", (P("parse_hierarchy"), Const(True)))}
+            for g_, t in tab:
+                for c_, v_ in g_.items():
+                    if is_func(t, fn) and v_ is not True:
+                        ok = False
+        R.check("C03-D2e writers and CLI", ok, q, mod=f.module, node=f.node, function=ctx.fq(f),
+                expected=f"{fn}(data) if parse_hierarchy is True else data", found=found, key_extra=q)
     pm = repo.func("suit_generator.cmd_parse", "main")
-    psrc = ast.unparse(pm.node)
-    R.check("C03-D2e writers and CLI", "envelope.load(input_file, 'suit')" in psrc and "envelope.dump(output_file, output_format, parse_hierarchy)" in psrc,
-            "cmd_parse.main", mod=pm.module, node=pm.node, function=ctx.fq(pm), expected="load(input, 'suit'); dump(output_file, output_format, parse_hierarchy)",
-            found="options not passed through")
+    po = [x for x in ev.outcomes(pm) if x.kind == "return"]
+    pc = [c for x in po for c in calls_of(x.effects)]
+    lo = [c for c in pc if is_func(c, "load")]
+    du = [c for c in pc if is_func(c, "dump")]
+    ok = len(lo) == 1 and len(du) == 1 and list(lo[0].args[2:]) == [P("input_file"), Const("suit")] and lo[0].args[1] == du[0].args[1] \
+        and list(du[0].args[2:]) == [P("output_file"), P("output_format"), P("parse_hierarchy")]
+    R.check("C03-D2e writers and CLI", ok, "cmd_parse.main", mod=pm.module, node=pm.node, function=ctx.fq(pm),
+            expected="load(input_file, 'suit'); dump(output_file, output_format, parse_hierarchy) on the same envelope object",
+            found=f"{[repr(c)[:120] for c in lo + du]}")
     fs = repo.func(IO, "InputOutputMixin.from_suit_file")
-    R.check("C03-D2e writers and CLI", "SuitEnvelopeTagged.from_cbor(data)" in ast.unparse(fs.node) and "return suit.to_obj()" in ast.unparse(fs.node),
-            "from_suit_file returns the full model's description", mod=fs.module, node=fs.node, function=ctx.fq(fs),
-            expected="SuitEnvelopeTagged.from_cbor(data).to_obj()", found="other model")
+    fo = [x for x in ev.outcomes(fs) if x.kind == "return"]
+    want = None
+    ok = False
+    for x in fo:
+        v = x.value
+        ok = isinstance(v, App) and v.op == "meth:to_obj" and is_func(v.args[0], "from_cbor") and v.args[0].args[-1] == App("filebytes", (P("file_name"),)) \
+            and any(isinstance(a_, Ref) and a_.kind == "class" and a_.obj.name == "SuitEnvelopeTagged" for a_ in v.args[0].args)
+    R.check("C03-D2e writers and CLI", ok and len(fo) == 1, "from_suit_file returns the full model's description", mod=fs.module, node=fs.node,
+            function=ctx.fq(fs), expected="SuitEnvelopeTagged.from_cbor(<whole file>).to_obj()", found=f"{[repr(x.value)[:160] for x in fo]}")
 
 
 def strip_loop(t):
